@@ -33,6 +33,7 @@ func main() {
 	openOut(*outp)
 	defer closeOut()
 	loadGolden()
+	loadPools()
 	emit(Event{"op": "Reset", "fresh_process": true, "seed": *seed, "tier": *tier, "prop": *prop})
 	switch cmd {
 	case "gen":
@@ -119,6 +120,15 @@ func genFor(prop, tier string, seed int64) {
 		runStrings(-300, 300)
 	case "C16":
 		runStrings(-70000, 70000)
+	case "C04":
+		cutEvery = 36
+		runSeeds(tier, seed)
+	case "C10":
+		cutEvery = 120
+		runCheckGroups(tier, seed)
+	case "C11":
+		cutEvery = 80
+		runSeedGroups(tier, seed)
 	default:
 		fatal("gen: unknown property", prop)
 	}
